@@ -17,9 +17,9 @@ void harness(void){
   matrix *a,*p; NewMatrix(&a,R,C); double A[R][C];
   for(size_t i=0;i<R;i++)for(size_t j=0;j<C;j++){ A[i][j]=in_double(-1e3,1e3); a->data[i][j]=A[i][j]; }
 #if C==1
-  { double g=0; for(size_t i=0;i<R;i++) g+=A[i][0]*A[i][0]; ASSUME(g>=1e-4); }
+  { double g=0; for(size_t i=0;i<R;i++) g+=A[i][0]*A[i][0]; ASSUME(g>=1e-12); }
 #else
-  { double g=0,h=0,k=0; for(size_t i=0;i<R;i++){ g+=A[i][0]*A[i][0]; h+=A[i][0]*A[i][1]; k+=A[i][1]*A[i][1]; } ASSUME(g*k-h*h>=1e-4); }   /* full column rank */
+  { double g=0,h=0,k=0; for(size_t i=0;i<R;i++){ g+=A[i][0]*A[i][0]; h+=A[i][0]*A[i][1]; k+=A[i][1]*A[i][1]; } ASSUME(g*k-h*h>=1e-12); }   /* full column rank */
 #endif
 #if HP_PREFILL
   NewMatrix(&p,C,R); for(size_t i=0;i<C;i++)for(size_t j=0;j<R;j++) p->data[i][j]=in_double(-1e3,1e3);
